@@ -5,7 +5,6 @@ use crate::acc::{Acc, Run};
 use crate::gen::sentences;
 use crate::model::render;
 use jsonpath_rust::query::queryable::Queryable;
-use jsonpath_rust::query::js_path;
 use rayon::prelude::*;
 use serde_json::{json, Map, Number, Value};
 use std::panic::{catch_unwind, AssertUnwindSafe};
@@ -276,12 +275,34 @@ impl View for AltB {
 /// result of one evaluation in a representation that is comparable across data types
 pub type Obs = Result<Vec<(String, String)>, String>;
 
-pub fn run_on<T: View>(q: &str, doc: &T) -> Obs {
-    match catch_unwind(AssertUnwindSafe(|| js_path(q, doc).map(|v| v.into_iter().map(|r| (r.clone().path(), serde_json::to_string(&r.val().to_json()).unwrap())).collect::<Vec<_>>()))) {
-        Ok(Ok(v)) => Ok(v),
-        Ok(Err(e)) => Err(format!("Err({})", e.to_string().lines().last().unwrap_or("").trim())),
-        Err(p) => Err(format!("PANIC({})", crate::imp::panic_text(p))),
+impl jsonpath_rust::JsonPath for AltA {}
+impl jsonpath_rust::JsonPath for AltB {}
+
+/// paths and values through `query_with_path`, and the values through `query` (the convenience entry point a caller
+/// of the trait uses), which must be the same values in the same order
+pub fn run_on<T: View + jsonpath_rust::JsonPath>(q: &str, doc: &T) -> Obs {
+    let with_path = match catch_unwind(AssertUnwindSafe(|| doc.query_with_path(q).map(|v| v.into_iter().map(|r| (r.clone().path(), serde_json::to_string(&r.val().to_json()).unwrap())).collect::<Vec<_>>()))) {
+        Ok(Ok(v)) => v,
+        Ok(Err(e)) => return Err(format!("Err({})", e.to_string().lines().last().unwrap_or("").trim())),
+        Err(p) => return Err(format!("PANIC({})", crate::imp::panic_text(p))),
+    };
+    let vals = match catch_unwind(AssertUnwindSafe(|| doc.query(q).map(|v| v.into_iter().map(|r| serde_json::to_string(&r.to_json()).unwrap()).collect::<Vec<_>>()))) {
+        Ok(Ok(v)) => v,
+        Ok(Err(e)) => return Err(format!("query(): Err({})", e.to_string().lines().last().unwrap_or("").trim())),
+        Err(p) => return Err(format!("query(): PANIC({})", crate::imp::panic_text(p))),
+    };
+    let paths = match catch_unwind(AssertUnwindSafe(|| doc.query_only_path(q))) {
+        Ok(Ok(v)) => v,
+        Ok(Err(e)) => return Err(format!("query_only_path(): Err({})", e.to_string().lines().last().unwrap_or("").trim())),
+        Err(p) => return Err(format!("query_only_path(): PANIC({})", crate::imp::panic_text(p))),
+    };
+    if vals != with_path.iter().map(|x| x.1.clone()).collect::<Vec<_>>() {
+        return Err(format!("query() returns {:?} but query_with_path() returns {:?}", vals, with_path));
     }
+    if paths != with_path.iter().map(|x| x.0.clone()).collect::<Vec<_>>() {
+        return Err(format!("query_only_path() returns {:?} but query_with_path() returns {:?}", paths, with_path));
+    }
+    Ok(with_path)
 }
 
 /// the same value with the members of every object in sorted order (what serde_json's default BTreeMap build
@@ -370,6 +391,10 @@ pub fn run(tier: &str) -> i32 {
             return 2;
         }
     }
+    panel.extend([
+        json!({"items": ["a", "b", "c"], "m": {"0": "zero", "1": "one"}, "a/b": 1, "a": {"b": 2}, "x~1y": 1, "x/y": 2, "~0": 3, "~": 4}),
+        json!([{"0": 1}, [0, 1]]),
+    ]);
     let docs: Vec<Doc3> = panel.iter().map(Doc3::new).collect();
     // 1. sentence set x panel
     let sents = sentences::sentences(th);
@@ -384,6 +409,16 @@ pub fn run(tier: &str) -> i32 {
             acc
         })
         .reduce(Acc::new, Acc::merge);
+    // 1b. name / index paths on documents where JSON Pointer and JSONPath semantics differ
+    let a = {
+        let mut acc = a;
+        for q in ["$.items['1']", "$.items[1]", "$.m[0]", "$.m['0']", "$['a/b']", "$['a']['b']", "$['x~1y']", "$['x/y']", "$['~0']", "$['~']", "$[0]['0']", "$[0][0]", "$[1]['0']", "$[1][0]", "$['0']", "$.items['-1']", "$.items[-1]"] {
+            for d in &docs {
+                lockstep(&mut acc, q, d, "pointer look-alikes");
+            }
+        }
+        acc
+    };
     // 2. comparison table
     let uni = crate::checks::compare::universe(th);
     let lits = crate::checks::compare::literals(th);
